@@ -65,6 +65,8 @@ def is_cache_clear(c: ast.Call, reader_names: set) -> bool:
 
 
 class Dirty(Flow):
+    """state = frozenset of memoised readers whose memo may hold rows older than the last write"""
+
     def __init__(self, write_calls: set, reader_names: set):
         self.write_calls = write_calls
         self.reader_names = reader_names
@@ -78,15 +80,17 @@ class Dirty(Flow):
         for n in ast.walk(node):
             if isinstance(n, ast.Call):
                 if n in self.write_calls:
-                    evs.append((n.end_lineno, n.end_col_offset, "w"))
-                elif is_cache_clear(n, self.reader_names):
-                    evs.append((n.end_lineno, n.end_col_offset, "c"))
-        for _, _, k in sorted(evs):
+                    evs.append((n.end_lineno, n.end_col_offset, "w", None))
+                else:
+                    for r in self.reader_names:
+                        if is_cache_clear(n, {r}):
+                            evs.append((n.end_lineno, n.end_col_offset, "c", r))
+        for _, _, k, r in sorted(evs, key=lambda x: (x[0], x[1], x[2], x[3] or "")):
             if k == "w":
-                state = True
+                state = frozenset(self.reader_names)
                 self.writes_seen += 1
             else:
-                state = False
+                state = frozenset(state) - {r}
                 self.clears_seen += 1
         return [state]
 
@@ -95,11 +99,14 @@ def rule_r1(ctx, sf: SqlFacts) -> RuleResult:
     rr = RuleResult("C10.R1", "memoised readers of `pages` are invalidated after every writer", min_instances=3)
     pages = sf.on_table("pages")
     readers = {}
-    for s in pages:
-        if s.reads:
-            f = ctx.index.func(s.function)
-            if memoised(f):
-                readers[s.function] = f
+    # a memoised function is a reader of `pages` when it executes a SELECT on it or reaches (through the call graph) one
+    # that does: memoising page_exists() on top of get_page() is a second memo that every writer has to invalidate as well
+    from ..core.callgraph import CallGraph
+    direct = {s.function for s in pages if s.reads}
+    upstream = CallGraph(ctx.index).reaches(direct)
+    for dotted, m_, f in ctx.index.all_functions():
+        if dotted in upstream and memoised(f):
+            readers[dotted] = f
     rr.instances["memoised_readers"] = sorted(readers)
     writers = {}
     for s in pages:
@@ -118,18 +125,18 @@ def rule_r1(ctx, sf: SqlFacts) -> RuleResult:
     for w, stmts in sorted(writers.items()):
         fn = ctx.fn(w)
         fl = Dirty({s.call for s in stmts}, reader_names)
-        o = fl.run_function(fn, [False])
+        o = fl.run_function(fn, [frozenset()])
         exits = {}
         for node, st in o.ret:
-            exits.setdefault(node, set()).add(st)
+            exits.setdefault(node, set()).update(st)
         for node, sts in exits.items():
             label = "end of function" if isinstance(node, ast.FunctionDef) else unparse(node)
-            if True in sts:
+            if sts:
                 rr.bad(Finding(
                     "C10.R1", ctx.index.mod(w.split(".")[0]).relpath, w,
                     "exit `{}` after {}".format(label, " / ".join(sorted({s.kind + " " + s.table for s in stmts}))),
                     "this writer can return after writing `pages` without calling {}.cache_clear(); "
-                    "a lookup memoised before the write keeps returning the old row".format("/".join(sorted(reader_names))),
+                    "a lookup memoised before the write keeps returning the old row".format("/".join(sorted(sts))),
                     getattr(node, "lineno", fn.lineno),
                     {"writes": fl.writes_seen, "clears": fl.clears_seen},
                 ))
@@ -897,7 +904,128 @@ def rule_r14(ctx) -> RuleResult:
     return rr
 
 
+def rule_r15(ctx) -> RuleResult:
+    """Lookups spell titles with `_` or blanks interchangeably; get_page makes that so by replacing `_` with a blank.  The
+    replacement has to come before the title is compared with anything that can contain a blank -- the namespace prefixes
+    ("Template talk:", "Reconstruction talk:") -- otherwise `Template_talk:X` does not match its own prefix and is looked up
+    as `Template talk:Template_talk:X`.  Two-point abstraction (underscores replaced / possibly not) over get_page: a prefix
+    test, a comparison or a bound SQL value must not see a possibly-unreplaced title, constants without blank or underscore
+    excepted."""
+    rr = RuleResult("C10.R15", "get_page replaces `_` before the title meets a namespace prefix or the database", min_instances=2)
+    dotted = "core.Wtp.get_page"
+    fn = ctx.fn(dotted)
+    N_, R_ = True, False
+    if not any(isinstance(c, ast.Call) and isinstance(c.func, ast.Attribute) and c.func.attr == "replace" and len(c.args) == 2
+               and isinstance(c.args[0], ast.Constant) and c.args[0].value == "_" for c in ast.walk(fn)):
+        raise AnalysisError("get_page: the `_` -> blank replacement was not found (not this rule's concern how else it is done)")
+
+    def ev(e, env) -> bool:
+        if isinstance(e, ast.Constant):
+            return N_
+        if isinstance(e, ast.Name):
+            return env.get(e.id, N_)
+        if isinstance(e, ast.Call) and isinstance(e.func, ast.Attribute):
+            if e.func.attr == "replace" and len(e.args) == 2 and isinstance(e.args[0], ast.Constant) and e.args[0].value == "_" \
+                    and isinstance(e.args[1], ast.Constant) and e.args[1].value == " ":
+                return N_
+            return ev(e.func.value, env) and all(ev(a, env) for a in e.args)
+        if isinstance(e, ast.Call):
+            return all(ev(a, env) for a in e.args)
+        if isinstance(e, (ast.BinOp,)):
+            return ev(e.left, env) and ev(e.right, env)
+        if isinstance(e, (ast.Subscript, ast.Attribute, ast.Starred)):
+            return ev(e.value, env)
+        if isinstance(e, (ast.Tuple, ast.List)):
+            return all(ev(x, env) for x in e.elts)
+        if isinstance(e, ast.IfExp):
+            return ev(e.body, env) and ev(e.orelse, env)
+        if isinstance(e, ast.JoinedStr):
+            return all(ev(v.value, env) if isinstance(v, ast.FormattedValue) else True for v in e.values)
+        return N_
+
+    def harmless(c) -> bool:
+        return isinstance(c, ast.Constant) and isinstance(c.value, str) and " " not in c.value and "_" not in c.value
+
+    def uses(e, env, where):
+        for n in ast.walk(e):
+            if isinstance(n, ast.Call) and isinstance(n.func, ast.Attribute) and n.func.attr in ("startswith", "endswith", "removeprefix", "removesuffix", "index", "find") \
+                    and n.args and not harmless(n.args[0]):
+                recv = n.func.value
+                while isinstance(recv, ast.Call) and isinstance(recv.func, ast.Attribute) and recv.func.attr in ("lower", "upper", "casefold", "strip"):
+                    recv = recv.func.value
+                if not ev(recv, env):
+                    rr.bad(Finding("C10.R15", CORE, dotted, unparse(n)[:80],
+                                   "the title is compared with a namespace prefix before `_` has been replaced by a blank on this path: a "
+                                   "lookup that spells a multi-word namespace with `_` (`Template_talk:X`) does not match its prefix and the page "
+                                   "is reported absent", n.lineno))
+                else:
+                    rr.ok(dotted, "prefix test on the replaced title: " + unparse(n)[:50])
+            if isinstance(n, ast.Call) and isinstance(n.func, ast.Attribute) and n.func.attr in ("execute", "executemany") and len(n.args) > 1:
+                if not ev(n.args[1], env):
+                    rr.bad(Finding("C10.R15", CORE, dotted, unparse(n)[:80],
+                                   "a title in which `_` may not have been replaced is bound into the lookup", n.lineno))
+                else:
+                    rr.ok(dotted, "values bound into the lookup have `_` replaced")
+
+    def run(stmts, env) -> bool:
+        for st in stmts:
+            if isinstance(st, ast.Assign):
+                uses(st.value, env, st)
+                v = ev(st.value, env)
+                for t in st.targets:
+                    if isinstance(t, ast.Name):
+                        env[t.id] = v
+                    elif isinstance(t, (ast.Tuple, ast.List)) and isinstance(st.value, (ast.Tuple, ast.List)) and len(t.elts) == len(st.value.elts):
+                        for tt, vv in zip(t.elts, st.value.elts):
+                            if isinstance(tt, ast.Name):
+                                env[tt.id] = ev(vv, env)
+                    else:
+                        for x in ast.walk(t):
+                            if isinstance(x, ast.Name):
+                                env[x.id] = v
+            elif isinstance(st, ast.AugAssign) and isinstance(st.target, ast.Name):
+                uses(st.value, env, st)
+                env[st.target.id] = env.get(st.target.id, N_) and ev(st.value, env)
+            elif isinstance(st, ast.Expr):
+                uses(st.value, env, st)
+                c = st.value
+                if isinstance(c, ast.Call) and isinstance(c.func, ast.Attribute) and c.func.attr in ("append", "extend", "insert") and isinstance(c.func.value, ast.Name):
+                    env[c.func.value.id] = env.get(c.func.value.id, N_) and all(ev(a, env) for a in c.args)
+            elif isinstance(st, ast.If):
+                uses(st.test, env, st)
+                e1, e2 = dict(env), dict(env)
+                t1, t2 = run(st.body, e1), run(st.orelse, e2)
+                if t1 and t2:
+                    return True
+                live = [e_ for e_, t_ in ((e1, t1), (e2, t2)) if not t_]
+                for k in set().union(*[set(e_) for e_ in live]):
+                    env[k] = all(e_.get(k, N_) for e_ in live)
+            elif isinstance(st, (ast.For, ast.While)):
+                uses(st.iter if isinstance(st, ast.For) else st.test, env, st)
+                run(st.body, env)
+                run(st.body, env)
+            elif isinstance(st, ast.Try):
+                run(st.body, env)
+                for h in st.handlers:
+                    run(h.body, dict(env))
+                run(st.finalbody, env)
+            elif isinstance(st, ast.Return):
+                if st.value is not None:
+                    uses(st.value, env, st)
+                return True
+            elif isinstance(st, (ast.Raise, ast.Continue, ast.Break)):
+                return True
+        return False
+
+    params = [a.arg for a in fn.args.args]
+    env0 = {params[1]: R_} if len(params) > 1 else {}
+    run([s_ for s_ in fn.body if not (isinstance(s_, ast.Expr) and isinstance(s_.value, ast.Constant))], env0)
+    if not rr.cases and not rr.findings:
+        raise AnalysisError("get_page: no prefix test or bound lookup value recognised")
+    return rr
+
+
 def run(ctx) -> list:
     sf = SqlFacts(ctx.index)
     return [rule_r1(ctx, sf), rule_r2(ctx, sf), rule_r3(ctx, sf), rule_r4(ctx, sf), rule_r5(ctx, sf), rule_r6(ctx, sf),
-            rule_r7(ctx, sf), rule_r8(ctx), rule_r9(ctx), rule_r10(ctx), rule_r11(ctx, sf), rule_r12(ctx, sf), rule_r13(ctx), rule_r14(ctx)]
+            rule_r7(ctx, sf), rule_r8(ctx), rule_r9(ctx), rule_r10(ctx), rule_r11(ctx, sf), rule_r12(ctx, sf), rule_r13(ctx), rule_r14(ctx), rule_r15(ctx)]
